@@ -333,6 +333,16 @@ thread_local! {
     static LAST_PANIC: std::cell::RefCell<String> = std::cell::RefCell::new(String::new());
 }
 
+/// path of this binary; if the file was replaced while the process runs (a rebuild during a long run), Linux reports
+/// "<path> (deleted)": the path itself is then what has to be started
+pub fn own_exe() -> std::path::PathBuf {
+    let p = std::env::current_exe().unwrap_or_default();
+    match p.to_str().and_then(|s| s.strip_suffix(" (deleted)")) {
+        Some(s) => std::path::PathBuf::from(s),
+        None => p,
+    }
+}
+
 pub fn install_panic_hook() {
     std::panic::set_hook(Box::new(|info| {
         let loc = info
@@ -937,7 +947,7 @@ pub fn supervisor_main(check: &dyn Check, tier: Tier) -> i32 {
     let units = check.units(tier);
     let bits = check.dedup_bits(tier);
     let shm = Arc::new(Shm::create(bits));
-    let exe = std::env::current_exe().expect("current_exe");
+    let exe = own_exe();
     let agg = Arc::new(Mutex::new(Agg::default()));
     let watchdog = Duration::from_secs(check.watchdog_s(tier));
 
